@@ -51,6 +51,10 @@ def c13_obs(prop):
             ob["ignore_panics"] = True
             ob["must_assert"] = ["C19.pure/non-evaluating-load-executes-no-command"]
         obs.append(ob)
+    if prop == "C13":
+        obs.append({"name": "C13.precond", "pkg": DAGPKG, "replay": "R1", "must_reach": ["end", "evaluated"],
+                    "quick": {"entry": "VerifHarness_C13_precond", "flags": ["-unwind", "24"] + C13_FLAGS[2:], "timeout_s": 900, "sample_paths": 1,
+                              "bounds": {"L": 6, "conditions": "1..2", "command_output": "<= 8 bytes", "expanded_value": "<= 12 bytes"}}})
     return obs
 
 
@@ -143,7 +147,7 @@ PROPS = {    "C01": {
                         "dag.substituteCommands summarised (I/O shell): no backtick segment => identity, otherwise ghost exec event + arbitrary result",
                         "regexp FindAllString/FindAllStringSubmatch/ReplaceAllString over-approximated (DESIGN 3.1); unix.SignalNum exact (Linux table)",
                         "parameter parsing under evaluation (Load with params) is not explored (DESIGN section 7)"],
-        "outside_claim": COMMON_OUTSIDE + ["arbitrary bytes: yaml.v2 and mapstructure decoding", "base-config merge (mergo)", "C13.serial (status JSON) and C13.precond (EvalConditions on accepted DAGs): see obligations listed in evidence"],
+        "outside_claim": COMMON_OUTSIDE + ["arbitrary bytes: yaml.v2 and mapstructure decoding", "base-config merge (mergo)", "C13.serial is checked on every accepted step/handler (json.Marshal model: fails on map[any]any and NaN/Inf)"],
     },
     "C19": {
         "obligations": c13_obs("C19"),
